@@ -25,10 +25,18 @@ PANIC_FAMILY = ("::unwrap", "::expect", "panicking::panic", "panic_fmt", "::unre
 WIDTH = {"put_u8": 1, "put_u16": 2, "put_u32": 4, "put_u64": 8, "get_u8": 1, "get_u16": 2, "get_u32": 4, "get_u64": 8}
 
 
+USER_PANIC_MACROS = {"panic", "unreachable", "todo", "unimplemented", "assert", "assert_eq", "assert_ne", "debug_assert", "debug_assert_eq", "debug_assert_ne"}
+
+
 def panic_calls(body):
+    """explicit panic-family calls written by the crate's authors: method calls (unwrap/expect) in plain code and the user-level
+    panic macros; internal invariants of library macros (tokio::select!/join!, tracing) are not the crate's own crash sites"""
     out = []
     for c in body.calls(True):
         if c.is_tracing:
+            continue
+        macros = [m.split("::")[-1] for m in c.span.get("macros", [])]
+        if macros and not (set(macros) & USER_PANIC_MACROS and not (set(macros) - USER_PANIC_MACROS - {"panic_2021", "panic_2015", "const_format_args", "format_args", "unreachable_2021"})):
             continue
         n = c.norm or ""
         if n.endswith(PANIC_FAMILY) and not n.endswith(("::unwrap_or", "::unwrap_or_else", "::unwrap_or_default")):
